@@ -3,7 +3,7 @@ import ast
 
 from ..model import AnalysisError, dotted, unparse
 from ..structfmt import parse_format, local_defs, resolve_local, linform, lin_eq, SIZES, calcsize_const
-from ..util import POS, FACTS, U, enum_paths, walk_no_nested
+from ..util import sym_env, sym_resolve, POS, FACTS, U, enum_paths, walk_no_nested
 from ..paths import call_attr, call_name
 from .. import wire
 
@@ -93,6 +93,41 @@ def check(ctx):
   r5(ctx)
 
 
+def fold_consts(prog, f, lf):
+  """Fold atoms of a linear form that are class/module constants into the constant term."""
+  out = {'': lf.get('', 0)}
+  for k, v in lf.items():
+    if k == '':
+      continue
+    try:
+      c = prog.const_eval(ast.parse(k, mode='eval').body, f.module, f.cls)
+      if isinstance(c, (int, float)):
+        out[''] += v * c
+        continue
+    except (ValueError, SyntaxError):
+      pass
+    out[k] = out.get(k, 0) + v
+  return out
+
+
+def crc_cover(expr):
+  """Byte strings covered by a (possibly nested / masked) zlib.crc32 expression, in order; None if not a crc chain."""
+  if isinstance(expr, ast.BinOp) and isinstance(expr.op, ast.BitAnd):
+    for a, b in ((expr.left, expr.right), (expr.right, expr.left)):
+      if isinstance(b, ast.Constant) and b.value == 0xffffffff:
+        return crc_cover(a)
+    return None
+  if isinstance(expr, ast.Call) and (dotted(expr.func) or '').split('.')[-1] == 'crc32' and 1 <= len(expr.args) <= 2:
+    if len(expr.args) == 1:
+      return [U(expr.args[0])]
+    seed = expr.args[1]
+    if isinstance(seed, ast.Constant) and seed.value == 0:
+      return [U(expr.args[0])]
+    inner = crc_cover(seed)
+    return None if inner is None else inner + [U(expr.args[0])]
+  return None
+
+
 def struct_fmt_of(prog, cls, name):
   k, v = prog.lookup_const(cls, name)
   if isinstance(v, ast.Call) and v.args and isinstance(v.args[0], ast.Constant):
@@ -149,7 +184,7 @@ def r2(ctx, bh):
   st, comp = msl
   var = U(comp.generators[0].target)
   try:
-    lf = linform(comp.elt)
+    lf = fold_consts(prog, f, linform(comp.elt))
     ok = lin_eq(lf, {'': hsz + ssz, 'len(%s)' % var: 1}) and U(comp.generators[0].iter) == U(loops[0].iter) and not comp.generators[0].ifs
   except ValueError:
     lf, ok = None, False
@@ -209,34 +244,34 @@ def r3(ctx):
   if not loops:
     return
   why = 'the broker verifies CRC32 over everything after the CRC field (magic, attributes, key, value); any other coverage fails validation'
+  done = False
   for ev, ex in enum_paths(ctx, f, body=loops[0].body):
-    crc_args = []
     raw = []
-    chain_ok = True
-    prev = None
     wstruct = None
-    for e in ev:
-      if e.kind == 'stmt' and isinstance(e.node, ast.Assign) and isinstance(e.node.value, ast.Call) and call_name(e.node.value) in ('zlib.crc32', 'crc32'):
-        c = e.node.value
-        crc_args.append(U(c.args[0]))
-        if prev is not None:
-          if len(c.args) < 2 or U(c.args[1]) != prev:
-            chain_ok = False
-        elif len(c.args) > 1 and not (isinstance(c.args[1], ast.Constant) and c.args[1].value == 0):
-          chain_ok = False     # the first crc32 of a message must start a fresh checksum
-        prev = e.node.targets[0].id if isinstance(e.node.targets[0], ast.Name) else None
+    wi = None
+    for i, e in enumerate(ev):
       if e.kind == 'call' and call_attr(e.node) == 'WriteRaw':
-        raw.append(U(e.node.args[0]))
+        raw.append(U(sym_resolve(e.node.args[0], {k: v for k, v in sym_env(ev, i).items() if not isinstance(v, ast.Call)})))
       if e.kind == 'call' and call_attr(e.node) == 'WriteStruct' and U(e.node.args[0]).endswith('MSG_HEADER'):
-        wstruct = e.node
-    ctx.ob('C15.R3', f, 'crc covers the bytes written after it, in order', chain_ok and crc_args == raw and len(raw) >= 2,
-           'crc over %s (chained=%s), written %s' % (crc_args, chain_ok, raw), why)
-    okm = False
-    if wstruct is not None and len(wstruct.args) == 4 and prev:
-      v = U(wstruct.args[3]).replace(' ', '').lower()
-      okm = v in ('%s&0xffffffff' % prev, '%s&4294967295' % prev, '(%s&0xffffffff)' % prev)
-    ctx.ob('C15.R3', f, 'crc field = final crc masked to unsigned', okm, 'crc field is %s' % (U(wstruct.args[3]) if wstruct is not None and len(wstruct.args) == 4 else None), why)
+        wstruct, wi = e.node, i
+    if wstruct is None or len(wstruct.args) != 4:
+      ctx.ob('C15.R3', f, 'crc covers the bytes written after it, in order', False, 'message header write not found', why)
+      continue
+    crc_expr = sym_resolve(wstruct.args[3], sym_env(ev, wi))
+    cover = crc_cover(crc_expr)
+    masked = isinstance(crc_expr, ast.BinOp) and isinstance(crc_expr.op, ast.BitAnd)
+    # compare on the un-resolved spelling of the written values where possible
+    written = [U(e.node.args[0]) for e in ev if e.kind == 'call' and call_attr(e.node) == 'WriteRaw']
+    env = sym_env(ev, wi)
+    written_res = [U(sym_resolve(ast.parse(w, mode='eval').body, env)) for w in written]
+    ok = cover is not None and len(written) >= 2 and (cover == written or cover == written_res)
+    ctx.ob('C15.R3', f, 'crc covers the bytes written after it, in order', ok,
+           'crc over %s, written %s' % (cover, written), why)
+    ctx.ob('C15.R3', f, 'crc field = final crc masked to unsigned', masked and cover is not None, 'crc field is %s' % U(wstruct.args[3]), why)
+    done = True
     break
+  if not done:
+    ctx.ob('C15.R3', f, 'crc covers the bytes written after it, in order', False, 'no message path found', why)
 
 
 def r4(ctx, bh, pr):
@@ -251,17 +286,27 @@ def r4(ctx, bh, pr):
     ctx.ob('C15.R4', bh, 'correlation slot = tag', False, 'header pack has %d values' % len(s.args), why)
   # reply routing
   stream = pr.params[1]
-  un = [st for st in walk_no_nested(pr.node) if isinstance(st, ast.Assign) and isinstance(st.value, ast.Call) and call_attr(st.value) == 'unpack']
+  route = [c for c in walk_no_nested(pr.node) if isinstance(c, ast.Call) and call_attr(c) == '_ProcessTaggedReply']
   ok = False
-  if len(un) == 1:
-    u = un[0]
-    fmt = parse_format(u.value.args[0])
-    t = u.targets[0]
-    name = t.elts[0].id if isinstance(t, ast.Tuple) and len(t.elts) == 1 and isinstance(t.elts[0], ast.Name) else None
-    reads = U(u.value.args[1]).replace(' ', '') == '%s.read(4)' % stream
-    route = [c for c in walk_no_nested(pr.node) if isinstance(c, ast.Call) and call_attr(c) == '_ProcessTaggedReply']
-    ok = (fmt is not None and [(x.code, x.count) for x in fmt.fields] == [('i', 1)] and reads and name is not None
-          and len(route) == 1 and [U(a) for a in route[0].args] == [name, stream] and route[0].lineno > u.lineno)
+  if len(route) == 1 and len(route[0].args) == 2 and U(route[0].args[1]) == stream:
+    a = route[0].args[0]
+    pdefs = local_defs(pr.node)
+    if isinstance(a, ast.Name):
+      # tag, = unpack(...)  /  tag = unpack(...)[0]
+      for st in walk_no_nested(pr.node):
+        if isinstance(st, ast.Assign) and st.lineno <= route[0].lineno:
+          t = st.targets[0]
+          if isinstance(t, ast.Tuple) and len(t.elts) == 1 and U(t.elts[0]) == a.id:
+            a = ast.Subscript(value=st.value, slice=ast.Constant(value=0), ctx=ast.Load())
+          elif isinstance(t, ast.Name) and t.id == a.id:
+            a = st.value
+    if isinstance(a, ast.Subscript) and U(a.slice) == '0':
+      a = a.value
+      if isinstance(a, ast.Call) and call_attr(a) == 'unpack' and len(a.args) == 2:
+        fmt = parse_format(a.args[0])
+        src = resolve_local(a.args[1], pdefs, route[0].lineno)
+        ok = (fmt is not None and [(x.code, x.count) for x in fmt.fields] == [('i', 1)] and fmt.order in ('!', '>')
+              and U(src).replace(' ', '') == '%s.read(4)' % stream)
   ctx.ob('C15.R4', pr, 'reply routed by the int32 read from its first 4 bytes', ok, 'reply routing shape changed', why)
   dm = prog.func(KP, 'KafkaProtocol.DeserializeMessage')
   buf = dm.params[1]
